@@ -55,6 +55,9 @@ PROP = {
             "later RunHandlers under the caller's context (the router must still end it through the handler context: publisher closed, "
             "no goroutine left; run in a child process); a negative CloseTimeout with a handler still running (Close must answer the "
             "error at once, 1 and 3 callers, Run returns); "
+            "4-12 goroutines polling the public IsClosed() while Close is called once (the call must return; 6 rounds, 16 in the thorough "
+            "tier; child process); AddHandler with a taken name (documented DuplicateHandlerNameError panic, recovered) followed by Close / "
+            "Run + traffic + Close / RunHandlers for another handler; "
             "seeded random programs (1-3 handlers, outcomes ok/out/err/pubfail/panic, yields). Every trace goes through the C06 monitor "
             "(clauses of the statement); traces marked for conformance must be traces of the Lean model RouterLife (subset construction). "
             "Non-trivial = a trace with at least one emitted message and one Close call.",
